@@ -41,6 +41,21 @@ DecidedRec(cfg, j) ==
     THEN (\E i \in IdxOf(cfg) : SucceededRec(j, i)) \/ \A i \in IdxOf(cfg) : ExhaustedRec(cfg, j, i)
     ELSE (\A i \in IdxOf(cfg) : SucceededRec(j, i)) \/ \E i \in IdxOf(cfg) : ExhaustedRec(cfg, j, i)
 
+\* decided according to what a pass could see at its SyncBegin (cached Job status merged with the Pod cache): an attempt is
+\* over in that view if its recorded ref is finished, its cached Pod is terminal, or it is recorded but its Pod is absent
+\* from the cache (lost)
+ViewAttempts(pass, i) == {r.name : r \in RefsOf(pass.j, i)} \cup {q.name : q \in {x \in Mine(pass.p) : x.idx = i}}
+OverInView(pass, n) == \/ \E r \in Range(pass.j.refs) : r.name = n /\ r.fin # 0
+                       \/ \E q \in Range(pass.p) : q.name = n /\ ~Alive(q)
+                       \/ ~\E q \in Range(pass.p) : q.name = n
+SuccInView(pass, i) == \/ \E r \in RefsOf(pass.j, i) : r.res = "Succeeded"
+                       \/ \E q \in Mine(pass.p) : q.idx = i /\ q.phase = "Succeeded" /\ ~q.oom
+ExhaustedView(cfg, pass, i) == ~SuccInView(pass, i) /\ Cardinality({n \in ViewAttempts(pass, i) : OverInView(pass, n)}) >= cfg.maxatt
+DecidedView(cfg, pass) ==
+    IF cfg.strategy = "AnySuccessful"
+    THEN (\E i \in IdxOf(cfg) : SuccInView(pass, i)) \/ \A i \in IdxOf(cfg) : ExhaustedView(cfg, pass, i)
+    ELSE (\A i \in IdxOf(cfg) : SuccInView(pass, i)) \/ \E i \in IdxOf(cfg) : ExhaustedView(cfg, pass, i)
+
 \* ---------- C08 ----------
 C08_OneLive(cfg, pods) == \A i \in IdxOf(cfg) : Cardinality({p \in Mine(pods) : p.idx = i /\ Alive(p)}) <= 1
 NewPods(pods, podsN) == {p \in Mine(podsN) : p.name \notin Names(pods)}
@@ -62,6 +77,8 @@ C08_GatesStep(cfg, pods, podsN, pass) ==
         /\ pass.j.ex /\ pass.j.started /\ pass.j.kill = 0 /\ ~pass.j.adm /\ ~pass.j.del
         /\ ~SucceededRec(pass.j, p.idx)
         /\ ~DecidedRec(cfg, pass.j)
+        \* nor for an index one of whose recorded tasks the pass could see as succeeded in its Pod cache
+        /\ ~\E q \in Mine(pass.p) : q.idx = p.idx /\ q.phase = "Succeeded" /\ ~q.oom /\ \E r \in Range(pass.j.refs) : r.name = q.name
 
 \* ---------- C09 ----------
 C09_KeepStep(job, jobN) ==
@@ -132,6 +149,7 @@ C12_DeleteJustifiedStep(cfg, dels, pods, podsN, pass, nowN, everN, succN) ==
         \/ (cfg.pt > 0 /\ PodNamed(pass.p, p.name) = {} /\ nowN >= p.cr + cfg.pt)
         \/ pass.j.del
         \/ DecidedTruth(cfg, podsN, everN, succN)
+        \/ DecidedView(cfg, pass)
 C12_ForceGateStep(cfg, fdels, pods, pass, nowN) ==
     \A p \in Mine(pods) : p.name \in fdels =>
         /\ cfg.fd > 0 /\ ~cfg.forbid
